@@ -431,3 +431,9 @@ func (k *bridgeKind) workDir() string     { return k.dir }
 func (k *bridgeKind) prepare(op Op) {}
 
 func (k *bridgeKind) pool() *sql.DB { return k.node.VerifDB() }
+
+func (k *bridgeKind) twinPath() string { return tmpDB(k.dir, fmt.Sprintf("twin%d.sqlite", k.twinN)) }
+func (k *bridgeKind) twinProcess(op Op) error {
+	blk, _ := k.build(op)
+	return k.twin.VerifProcessBlock(context.Background(), blk)
+}
